@@ -3,6 +3,7 @@
 from __future__ import annotations
 
 import ast
+from typing import Any
 from dataclasses import dataclass
 
 from ..core import Ctx, Ob, note, ok, unres, viol
@@ -612,6 +613,7 @@ def r2e(ctx: Ctx) -> list[Ob]:
                             out.append(ok("R2e", r.fn.qualname, "const", f"normalised layer integrates to {want} in {'log' if log_space else 'linear'} space", csite))
                         else:
                             out.append(viol("R2e", r.fn.qualname, "const", f"normalised layer's integral is the constant {v.value} with log_space={log_space} (expected {want})", csite))
+                    out.extend(_const_guard(r, pname, c, csite))
             # a log-partition parameter passed through requires log space
             for e in ld.expand(val):
                 for ch in maximal_chains(e):
@@ -621,6 +623,96 @@ def r2e(ctx: Ctx) -> list[Ob]:
                         else:
                             out.append(viol("R2e", r.fn.qualname, "space:log_partition", "log-partition parameter used with log_space=False", site))
     return out
+
+
+def _const_guard(r: Any, pname: str, c: ast.Call, csite: str) -> list[Ob]:
+    """R2e const-guard: an integration rule may answer with a *constant* integral only when the layer
+    has no parameter whose normalisation it would have to compute (``<layer>.<param> is None``: the
+    layer is normalised by construction).  A disjunct that instead inspects the *kind* of the
+    parameter graph (``isinstance(sl.logits.output, LogSoftmaxParameter)``) claims a value-level fact
+    -- normalisation along the category axis -- and is accepted only together with a test of that
+    operator's ``axis``; without it, logits normalised along another axis integrate to the constant."""
+    fn = r.fn.node
+    par: dict[int, ast.AST] = {}
+    for n in ast.walk(fn):
+        for ch in ast.iter_child_nodes(n):
+            par[id(ch)] = n
+    # the statement holding the call, and the branch it sits in
+    cur: ast.AST = c
+    conds: list[tuple[ast.AST, bool]] = []  # (test, taken-when-true)
+    while cur is not fn and id(cur) in par:
+        up = par[id(cur)]
+        if isinstance(up, ast.If):
+            if any(cur is b for b in up.body):
+                conds.append((up.test, True))
+            elif any(cur is b for b in up.orelse):
+                conds.append((up.test, False))
+        elif isinstance(up, ast.IfExp):
+            if cur is up.body:
+                conds.append((up.test, True))
+            elif cur is up.orelse:
+                conds.append((up.test, False))
+        cur = up
+    if not conds:
+        return [ok("R2e", r.fn.qualname, "const-guard", "the constant integral is unconditional (the layer has no normalisation parameter)", csite, nontrivial=False)]
+    out: list[Ob] = []
+    for test, pos in conds:
+        disj: list[tuple[ast.AST, bool]]
+        if pos:
+            disj = [(d, True) for d in (test.values if isinstance(test, ast.BoolOp) and isinstance(test.op, ast.Or) else [test])]
+        else:
+            # taken when the test is false: not (a and b) = (not a) or (not b); not (a or b) is a conjunction -> every part must hold, judged as one
+            if isinstance(test, ast.BoolOp) and isinstance(test.op, ast.And):
+                disj = [(d, False) for d in test.values]
+            else:
+                disj = [(test, False)]
+        for d, polarity in disj:
+            kind = _guard_kind(d, polarity, pname)
+            inst = f"const-guard:{unparse(d)[:50]}"
+            if kind == "absent":
+                out.append(ok("R2e", r.fn.qualname, inst, "constant integral chosen because the normalisation parameter is absent", csite))
+            elif kind == "normalised-checked":
+                out.append(ok("R2e", r.fn.qualname, inst, "constant integral chosen for a softmax-normalised parameter whose axis is tested", csite))
+            elif kind == "normalised-unchecked":
+                out.append(
+                    viol(
+                        "R2e",
+                        r.fn.qualname,
+                        inst,
+                        f"the constant integral is chosen when `{unparse(d)[:80]}` -- the kind of the parameter's last operator -- without testing the axis it "
+                        "normalises: a parameter normalised along another axis (or wrapped in any operator of that kind) does not integrate to the constant",
+                        csite,
+                    )
+                )
+            else:
+                out.append(unres("R2e", r.fn.qualname, inst, "a condition for the constant integral this rule has no model of", csite))
+    return out
+
+
+def _guard_kind(d: ast.AST, polarity: bool, pname: str) -> str:
+    # <pname>.<x> is None  (positive)   /   <pname>.<x> is not None  (negated)
+    if isinstance(d, ast.UnaryOp) and isinstance(d.op, ast.Not):
+        return _guard_kind(d.operand, not polarity, pname)
+    if isinstance(d, ast.Compare) and len(d.ops) == 1 and isinstance(d.comparators[0], ast.Constant) and d.comparators[0].value is None:
+        chain = dotted(d.left) or ""
+        if chain.startswith(pname + "."):
+            if (isinstance(d.ops[0], ast.Is) and polarity) or (isinstance(d.ops[0], ast.IsNot) and not polarity):
+                return "absent"
+        return "other"
+    parts = d.values if isinstance(d, ast.BoolOp) and isinstance(d.op, ast.And) else [d]
+    has_kind = any(
+        isinstance(x, ast.Call) and (dotted(x.func) or "") == "isinstance" and len(x.args) == 2 and "oftmax" in unparse(x.args[1])
+        for p_ in parts
+        for x in ast.walk(p_)
+    )
+    if has_kind and polarity:
+        has_axis = any(
+            isinstance(x, ast.Compare) and any(isinstance(y, ast.Attribute) and y.attr in ("axis", "dim") for y in ast.walk(x))
+            for p_ in parts
+            for x in ast.walk(p_)
+        )
+        return "normalised-checked" if has_axis else "normalised-unchecked"
+    return "other"
 
 
 # ------------------------------------------------------------------------------------------ R2f
